@@ -571,6 +571,6 @@ OBLIGATIONS = [
                parts={"quick": [dict(flags=fl, unit=u) for fl in _flagsets(1) + [((False, False), (True, False))]
                                 for u in range(4)],
                       "thorough": [dict(flags=fl, unit=u) for fl in _flagsets(2) for u in range(4)]},
-               timeout={"quick": 150, "thorough": 900},
+               timeout={"quick": 300, "thorough": 900},
                symbolic="limit, force, boot, now; per file (size, ts0, ts1, ncmds)"),
 ]
